@@ -1142,10 +1142,10 @@ func (s pathCompositeReferenceCount) totalReferences() int {
 }
 
 func pathCompositeBinding(scope *Scope, identifier pgsql.Identifier) (*BoundIdentifier, bool) {
+	// The identifier comes out of an already translated expression: it is a generated identifier, never a
+	// user alias, so it must not be looked up in the alias table (a user path variable spelled like a pruned
+	// generated identifier would be returned instead).
 	binding, bound := scope.Lookup(identifier)
-	if !bound {
-		binding, bound = scope.AliasedLookup(identifier)
-	}
 
 	if !bound || binding.DataType != pgsql.PathComposite || binding.LastProjection != nil {
 		return nil, false
